@@ -549,6 +549,8 @@ def check_e2e(sample, acl_safe, dont_commit, report):
     case = {"part": "E", "sample": sample["name"], "acl_safe": acl_safe, "dont_commit": dont_commit}
     unsafe, safe = split_new(sample["new"])
     with e2e.Session(sample["model"], sample["old"], [(unsafe, False), (safe, True)]) as ss:
+        if not ss.representable:
+            return "device-text-not-representable", 0
         shown_exc = job_exc = None
         try:
             shown = ss.patch(acl_safe)
